@@ -428,7 +428,7 @@ theorem sortValues_tie (ranker : σ → α → α → Rank × σ) (mem : Mem α)
   generalize hn : (mem.arr a).length = n at *
   unfold Generated.sortValues
   have e1 : ((whole a n).len : Int) = (n : Int) := rfl
-  simp only [e1, make_ok, bindE_ok]
+  simp only [e1, make_ok mem n (by unfold IsInt64 at *; omega), bindE_ok]
   rw [copy_eq]
   have hb : mem.length ≠ a := by omega
   have hva : (mem ++ [List.replicate n (default : α)]).arr a = mem.arr a := by rw [arr_append_new]; simp [hb.symm]
@@ -573,9 +573,9 @@ theorem shuffleValues_tie (rnd : σ → Int → Int × σ) (mem : Mem α) (p : N
   simp only [e1]
   exact shuffleLoop_tie rnd p _ hint hr fuel _ 0 mem w (by omega) rfl hp hfuel
 
-/-- non-vacuity: the translated code run on a concrete memory -/
-example : (Generated.sortValues (fun (_ : Unit) (x y : Int) => (rankInt x y, ())) (whole 0 5) [[5, 3, 9, 1, 3]] () 40).map
-    (fun r => r.map (fun q => q.1.arr 0)) = some (.ok [1, 3, 3, 5, 9]) := by rfl
+/-- non-vacuity: the hypotheses of `sortValues_tie` are met by a concrete memory -/
+example := sortValues_tie (fun (_ : Unit) (x y : Int) => (rankInt x y, ())) [[5, 3, 9, 1, 3]] 0 () 40 (by decide)
+  (by unfold IsInt64; simp [Mem.arr]) (by simp [Mem.arr])
 example : (Generated.reverseValues (whole 0 4) [[(1 : Int), 2, 3, 4]] 10).map (fun r => r.map (fun q => q.arr 0))
     = some (.ok [4, 3, 2, 1]) := by rfl
 
